@@ -16,7 +16,7 @@ for line in sys.stdin:
     if not m: continue
     prop, famkind, rung, detail = m.groups()
     # famkind = family/kind where kind is one of the known suffixes
-    for k in ('lost-wakeup/inflight', 'lost-wakeup/late', 'not-linearizable/false-empty', 'not-linearizable/false-full', 'not-linearizable/order-or-loss'):
+    for k in ('lost-wakeup/inflight', 'lost-wakeup/late', 'not-linearizable/false-empty+false-full', 'not-linearizable/false-empty', 'not-linearizable/false-full', 'not-linearizable/order-or-loss'):
         if famkind.endswith('/' + k):
             fam, kind = famkind[:-len(k) - 1], k; break
     else:
